@@ -718,6 +718,42 @@ pub fn run(tier: Tier) -> i32 {
         });
     }
     rep.guard(n_groupings > 600, "fewer than 600 argument groupings");
+
+    // calls that stand in the data segment or in the EEPROM segment (at top level and inside a
+    // body that switched there), and bodies that call themselves or each other behind a guard
+    // that the first expansion sets: each program against its hand expansion
+    let mut n_hand_pairs = 0usize;
+    {
+        let mut pairs: Vec<(&str, String, String)> = vec![];
+        for (a, b) in [(4, 2), (1, 1), (3, 7)] {
+            pairs.push(("call-in-dseg", format!(".macro res_q\n.byte @0\n.endm\nnop\n.dseg\nv1_q:\nres_q {a}\nv2_q:\nres_q {b}\nv3_q:\n.cseg\nldi r16, low(v2_q)\nldi r17, low(v3_q)\n"), format!("nop\n.dseg\nv1_q:\n.byte {a}\nv2_q:\n.byte {b}\nv3_q:\n.cseg\nldi r16, low(v2_q)\nldi r17, low(v3_q)\n")));
+            pairs.push(("call-in-eseg", format!(".macro ee_q\n.db @0, @0 + 1\n.endm\nnop\n.eseg\ne1_q:\nee_q {a}\ne2_q:\nee_q {b}\n.cseg\nldi r16, e2_q\n"), format!("nop\n.eseg\ne1_q:\n.db {a}, {a} + 1\ne2_q:\n.db {b}, {b} + 1\n.cseg\nldi r16, e2_q\n")));
+            pairs.push(("call-in-eseg-with-code-in-the-body", format!(".macro mix_q\n.db @0\n.cseg\nldi r18, @0\n.eseg\n.db @0 + 1\n.endm\n.eseg\nmix_q {a}\nmix_q {b}\n.cseg\nnop\n"), format!(".eseg\n.db {a}\n.cseg\nldi r18, {a}\n.eseg\n.db {a} + 1\n.db {b}\n.cseg\nldi r18, {b}\n.eseg\n.db {b} + 1\n.cseg\nnop\n")));
+            pairs.push(("nested-call-in-the-dseg-of-a-body", format!(".macro res_q\n.byte @0\n.endm\n.macro vars_q\n.dseg\nw1_q:\nres_q {a}\nw2_q:\nres_q @0\nw3_q:\n.cseg\n.endm\nnop\nvars_q {b}\nldi r16, low(w2_q)\nldi r17, low(w3_q)\n"), format!("nop\n.dseg\nw1_q:\n.byte {a}\nw2_q:\n.byte {b}\nw3_q:\n.cseg\nldi r16, low(w2_q)\nldi r17, low(w3_q)\n")));
+            pairs.push(("nested-call-in-the-eseg-of-a-body", format!(".macro ee_q\n.db @0, @0 + 1\n.endm\n.macro consts_q\n.eseg\nee_q {a}\nee_q @0\n.cseg\n.endm\nnop\nconsts_q {b}\nnop\n"), format!("nop\n.eseg\n.db {a}, {a} + 1\n.db {b}, {b} + 1\n.cseg\nnop\n")));
+            pairs.push(("nested-call-in-the-second-dseg-of-a-body", format!(".macro res_q\n.byte @0\n.endm\n.macro both_q\nldi r20, @0\n.dseg\nres_q @0\n.cseg\nldi r21, @0\n.dseg\nres_q {a}\n.cseg\n.endm\nboth_q {b}\nboth_q {a}\n"), format!("ldi r20, {b}\n.dseg\n.byte {b}\n.cseg\nldi r21, {b}\n.dseg\n.byte {a}\n.cseg\nldi r20, {a}\n.dseg\n.byte {a}\n.cseg\nldi r21, {a}\n.dseg\n.byte {a}\n.cseg\n")));
+        }
+        for arg in ["", " 5", " r16, 1+2"] {
+            pairs.push(("mutual-recursion-behind-guards", format!(".macro need_a\n.ifndef a_done_q\n.define a_done_q\nneed_b{arg}\nldi r16, 0xA1\n.endif\n.endm\n.macro need_b\n.ifndef b_done_q\n.define b_done_q\nneed_a{arg}\nldi r17, 0xB2\n.endif\n.endm\nneed_a{arg}\nneed_b{arg}\nret\n"), ".define a_done_q\n.define b_done_q\nldi r17, 0xB2\nldi r16, 0xA1\nret\n".to_string()));
+            pairs.push(("self-recursion-behind-a-guard", format!(".macro once_q\n.ifndef once_done_q\n.define once_done_q\nnop\nonce_q{arg}\ninc r1\n.endif\n.endm\nonce_q{arg}\nonce_q{arg}\nret\n"), ".define once_done_q\nnop\ninc r1\nret\n".to_string()));
+        }
+        for n in [1usize, 3, 12] {
+            pairs.push(("count-down-recursion", format!(".macro cd_q\n.if @0 > 0\nldi r16, @0\ncd_q @0 - 1\n.endif\n.endm\ncd_q {n}\nret\n"), format!("{}ret\n", (0..n).map(|i| format!("ldi r16, {}\n", n - i)).collect::<String>())));
+        }
+        n_hand_pairs = pairs.len();
+        for (fam, mac, hand) in pairs.iter() {
+            let (o1, o2) = (sut::build_str(mac), sut::build_str(hand));
+            let bad: Option<String> = match (&o1, &o2) {
+                (Outcome::Ok(x), Outcome::Ok(y)) if x.code == y.code && x.eeprom == y.eeprom && x.ram_filling == y.ram_filling => None,
+                (Outcome::Ok(x), Outcome::Ok(y)) => Some(format!("code {} / eeprom {} / ram_filling {} but the hand expansion gives {} / {} / {}", sut::hex_trunc(&x.code, 32), sut::hex_trunc(&x.eeprom, 16), x.ram_filling, sut::hex_trunc(&y.code, 32), sut::hex_trunc(&y.eeprom, 16), y.ram_filling)),
+                (_, Outcome::Ok(_)) => Some(format!("{} but the hand expansion builds", o1.brief())),
+                (_, other) => crate::report::machinery_fail(&format!("C09: the hand expansion of family {} does not build: {}", fam, other.brief())),
+            };
+            if let Some(what) = bad {
+                rep.violation(&format!("C09/differs-from-expansion/family={}", fam), || format!("family {}: {}", fam, what), || json!({"kind": "build_str", "source": mac, "hand_expanded_program": hand, "observed": o1.to_json(), "expected": o2.to_json()}));
+            }
+        }
+    }
     // a device filled to the last word by macro calls: a call places what its body places and
     // nothing more (a budget that charges the call itself, or the lines of the body, refuses a
     // program whose hand expansion fits exactly)
@@ -872,6 +908,7 @@ pub fn run(tier: Tier) -> i32 {
         "feature_use": *mac_use.lock().unwrap(),
         "repetition_programs": n_rep,
         "argument_groupings": n_groupings,
+        "programs_against_their_hand_expansion_calls_in_data_segments_and_guarded_recursion": n_hand_pairs,
         "device_filled_by_calls_programs": n_full,
         "alternation_programs": n_alt,
         "long_call_sequences": n_long,
